@@ -85,10 +85,10 @@ func env(k, d string) string {
 	return d
 }
 
-func Tier() string      { return env("VERIF_TIER", "quick") }
-func Thorough() bool    { return Tier() == "thorough" }
+func Tier() string       { return env("VERIF_TIER", "quick") }
+func Thorough() bool     { return Tier() == "thorough" }
 func ReplayFile() string { return os.Getenv("VERIF_REPLAY") }
-func WorkDir() string   { return env("VERIF_WORK", os.TempDir()) }
+func WorkDir() string    { return env("VERIF_WORK", os.TempDir()) }
 
 // Scale returns q in the quick tier and th in the thorough tier.
 func Scale(q, th int) int {
